@@ -120,6 +120,9 @@ func wrapPlan(plan *gateway.QueryPlan, rec *execRec) (roots []interface{}, depth
 			}
 			kids = append(kids, map[string]interface{}{"infos": pointInfos(s.FragmentDefinitions, s.SelectionSet, keys), "step": ser(k, d+1)})
 		}
+		// nodeParent: `node: null` is a legitimate answer to this step. The executor grants that to steps whose parent type
+		// is Node and to steps that hang off a step the GATEWAY answers itself (it looks at the parent's queryer); here
+		// every queryer of the plan has just been replaced by a recorder, so only the first reason can apply
 		return map[string]interface{}{"sid": sid, "strip": !isRootTypeName(s.ParentType), "nodeParent": s.ParentType == "Node", "kids": kids}
 	}
 	for _, s := range plan.RootStep.Then {
